@@ -77,10 +77,10 @@ func resolveLoadPhases(p *an.Prog) *loadPhases {
 		load:    p.Func("internal/config", "Loader", "Load"),
 		glob:    work,
 		globAPI: api,
-		ld:   p.Func("internal/config", "Loader", "load"),
-		dec:  p.Func("internal/config", "Loader", "decode"),
-		bfd:  p.Func("internal/config", "", "buildFromDefinition"),
-		mg:   p.Func("internal/config", "Config", "merge"),
+		ld:      p.Func("internal/config", "Loader", "load"),
+		dec:     p.Func("internal/config", "Loader", "decode"),
+		bfd:     p.Func("internal/config", "", "buildFromDefinition"),
+		mg:      p.Func("internal/config", "Config", "merge"),
 	}
 }
 
